@@ -700,7 +700,15 @@ impl Cb {
                 _ => continue, // consts / statics / anon consts: values come from const eval
             }
             let body = tcx.optimized_mir(did);
-            bodies.push((tcx.def_path_str(did), ex.body_json(ldid, body, "optimized")));
+            let mut bj = ex.body_json(ldid, body, "optimized");
+            let proms = tcx.promoted_mir(did);
+            if !proms.is_empty() {
+                let pj = J::Arr(proms.iter().map(|pb| ex.body_json(ldid, pb, "promoted_const")).collect());
+                if let J::Obj(ref mut o) = bj {
+                    o.push(("promoted".to_string(), pj));
+                }
+            }
+            bodies.push((tcx.def_path_str(did), bj));
         }
         let (enums, consts, adts) = ex.crate_facts();
         let name = tcx.crate_name(rustc_hir::def_id::LOCAL_CRATE).to_string();
